@@ -682,6 +682,9 @@ pub fn run_c13(ctx: &mut Ctx) {
         "0", "1", "42", "4294967295", "4294967296", "0x1F", "0X1F", "0x_1", "0x_", "0X__", "0x", "_", "1_", "1_000", "1.5", ".5", "1e10", "1e", "+", "-", "\"a\"", "\"\\u{41}\"", "\"\\u{dfff}\"",
         "\"\\zz\"", "\"", "/*", "*/", "//x\n", " ", "\n", "é", "\\", "`", "#", "assert", "encode", "4294967295 = 1", "4294967295 : nat", "18446744073709551616",
         "record { 4294967295 = 1; 2 }", "(vec {1 : nat8; 2} : text)", "principal \"aaaaa-aa\"", "principal \"zz\"", "service \"aaaaa-aa\"", "func \"aaaaa-aa\".f",
+        // string escapes whose number does not fit 21 / 32 / 64 bits, and leading zeros (the lexer parses the hex digits itself)
+        "\"\\u{10ffff}\"", "\"\\u{110000}\"", "\"\\u{ffffffff}\"", "\"\\u{100000000}\"", "\"\\u{100000041}\"", "\"\\u{fffffffff}\"",
+        "\"\\u{0000000041}\"", "\"\\u{10000000000000041}\"", "\"\\u{ffffffffffffffffffff}\"", "record { \"\\u{100000041}\" : nat }", "variant { \"\\u{fffffffff}\" }",
     ];
     let n = if ctx.thorough { 600_000 } else { 12_000 };
     for i in 0..n {
